@@ -122,6 +122,15 @@ class ParserState:
 
         def associator(node: Node) -> Visit:
             association[node].add(platform.name)
+            if verif.ENABLED:
+                verif.emit(
+                    "Visit",
+                    file=self._get_realpath(filename),
+                    kind=type(node).__name__,
+                    line=getattr(node, "start_line", 0),
+                    name=str(getattr(getattr(node, "identifier", None), "token", "")),
+                    plat=platform.name,
+                )
 
             # An #elif or #else belonging to a chain that has already taken a
             # branch must not be evaluated (its expression may be invalid).
@@ -135,12 +144,11 @@ class ParserState:
             )
             if verif.ENABLED:
                 verif.emit(
-                    "Visit",
+                    "Active",
                     file=self._get_realpath(filename),
                     kind=type(node).__name__,
                     line=getattr(node, "start_line", 0),
                     active=bool(active),
-                    plat=platform.name,
                 )
 
             # Ensure we only descend into one branch of an if/else/endif.
